@@ -108,6 +108,7 @@ CATALOGUE = [
     ("split-drops-nonblank-last-piece", "C05", "text.py", "        if not allow_blank and text.endswith(separator) and not lines[-1].plain:", "        if not allow_blank and text.endswith(separator):"),
     ("styled-control-to-non-terminal", "C03", "console.py", "            if not_terminal and is_control:\n                continue\n            if style:", "            if style:"),
     ("traceback-lexer-guess-raises", "C17", "traceback.py", "        except ClassNotFound:\n            # no lexer for this file name: show the source without highlighting\n            lexer_name = \"text\"", "        except ZeroDivisionError:\n            lexer_name = \"text\""),
+    ("transient-live-drawn-in-full-at-stop", "C10", "live.py", "                if not self.transient:\n                    self.vertical_overflow = \"visible\"", "                self.vertical_overflow = \"visible\""),
     ("live-stop-does-not-flush-redirect", "C10", "live.py", "                self._flush_redirected_io()\n", ""),
     ("update-same-total-resets-finish", "C12", "progress.py", "            if total is not None and total != task.total:", "            if total is not None:"),
     ("end-capture-takes-whole-buffer", "C15", "console.py", "        render_result = self._render_buffer(self._buffer[start:])\n        del self._buffer[start:]", "        render_result = self._render_buffer(self._buffer)\n        del self._buffer[:]"),
